@@ -11,6 +11,9 @@ import atexit, json, os, re, shutil, signal, subprocess, sys, tempfile, time
 ROOT = os.path.dirname(os.path.dirname(os.path.abspath(__file__)))
 REPO = os.environ.get("VERIF_REPO", "/repo")
 SPEC = os.path.join(ROOT, "spec")
+# evidence/ and replay/ go under OUT: /verif itself for registered runs against /repo; seed sweeps and self-tests
+# against a scratch worktree (VERIF_REPO) set VERIF_OUT so that the committed evidence is not overwritten
+OUT = os.environ.get("VERIF_OUT", ROOT)
 TLA_CP = "/opt/veriftools/tla/tla2tools.jar:/opt/veriftools/tla/CommunityModules-deps.jar"
 
 GOENV = {
@@ -269,7 +272,7 @@ class Verdict:
             return False
         if key in self.violations:
             return True
-        d = os.path.join(ROOT, "replay", self.prop)
+        d = os.path.join(OUT, "replay", self.prop)
         os.makedirs(d, exist_ok=True)
         path = os.path.join(d, "v%03d.json" % (len(self.violations) + 1))
         json.dump({"property": self.prop, "signature": sig, "what": what, "replay": replay_obj},
@@ -297,8 +300,8 @@ class Verdict:
 
 
 def write_evidence(prop, tier, level, coverage, assumptions, wall, violations):
-    os.makedirs(os.path.join(ROOT, "evidence"), exist_ok=True)
-    path = os.path.join(ROOT, "evidence", prop + ".json")
+    os.makedirs(os.path.join(OUT, "evidence"), exist_ok=True)
+    path = os.path.join(OUT, "evidence", prop + ".json")
     ev = {"property_id": prop, "tier": tier, "seed": seed(), "level": level, "coverage": coverage,
           "assumptions": assumptions, "wall_s": round(wall, 2), "violations": violations}
     tmp = path + ".tmp"
